@@ -151,7 +151,7 @@ def check_accept(triple, ctx, out, label, mod=None):
     return m
 
 
-def journal_check(m, axioms, claims, sm, out, label):
+def journal_check(m, axioms, claims, sm, out, label, discharge=True):
     """C03 oracle (R6 vs. R1 publish journal on the emitted files)."""
     pub = []
     for a in m.journal['axioms']:
@@ -166,7 +166,7 @@ def journal_check(m, axioms, claims, sm, out, label):
         out.violate('published claims == declared claims, in order (%s)' % label, 'C03|claims',
                     'declared=%s published=%s' % ([B.show_ext(a) for a in claims], [T.show(a) for a in pc]))
         return False
-    if m.journal['proved'] != pc:
+    if discharge and m.journal['proved'] != pc:
         out.violate('the proof file discharges exactly the claims, in order (%s)' % label, 'C03|discharge',
                     'claims=%s discharged=%s' % ([T.show(a) for a in pc], [T.show(a) for a in m.journal['proved']]))
         return False
